@@ -253,7 +253,7 @@ def flatten(target, **kwargs):
         raise TypeError('unexpected keyword args: %r' % sorted(kwargs.keys()))
 
     if levels == 0:
-        return target
+        return target if subspec is T else glom(target, subspec)
     if levels < 0:
         raise ValueError('expected levels >= 0, not %r' % levels)
     spec = (subspec,)
